@@ -15,6 +15,8 @@ type Env struct {
 	Seed uint64  `json:"seed"`
 	Bias float64 `json:"bias"` // probability that a flag / trainer flag is set
 	Dom  int     `json:"dom"`  // vars take values 0..Dom-1
+	// Vals, when set, is the value alphabet of vars instead of 0..Dom-1 (big-number runs)
+	Vals []int `json:"vals,omitempty"`
 	// Overlay0 fixes answers for epoch 0 only; Sticky fixes them for every epoch.
 	// Keys: "flag:NAME", "trainer:NAME" (0/1), "var:NAME" (value).
 	Overlay0 map[string]int `json:"overlay0,omitempty"`
@@ -76,11 +78,17 @@ func (e *Env) Var(epoch int, name string) int {
 		e.log(epoch, key, v)
 		return v
 	}
+	h := rng.H(e.Seed, uint64(epoch), rng.HashStr(key))
+	if len(e.Vals) > 0 {
+		v := e.Vals[h%uint64(len(e.Vals))]
+		e.log(epoch, key, v)
+		return v
+	}
 	d := e.Dom
 	if d < 2 {
 		d = 2
 	}
-	v := int(rng.H(e.Seed, uint64(epoch), rng.HashStr(key)) % uint64(d))
+	v := int(h % uint64(d))
 	e.log(epoch, key, v)
 	return v
 }
